@@ -68,7 +68,7 @@ COARSE_Q_FAMILY = True      # generate `q=` on coarse-fragment nodes (known find
 
 # spelled value -> the number it denotes (written by hand, not computed with float())
 CHARGES = [('1', 1.0), ('+1', 1.0), ('-0.25', -0.25), ('1e-1', 0.1), ('0', 0.0), ('-1', -1.0), ('2.5', 2.5)]
-WEIGHTS = [('0.5', 0.5), ('2', 2.0), ('1e-1', 0.1), ('+1', 1.0), ('36', 36.0), ('0.125', 0.125)]
+WEIGHTS = [('0.5', 0.5), ('2', 2.0), ('1e-1', 0.1), ('+1', 1.0), ('36', 36.0), ('0.125', 0.125), ('0', 0.0)]   # 0: falsy, but a weight like any other
 FREE = [('mass', '72'), ('r', 'abc'), ('p', '+1'), ('k', '1e-1')]
 FREE_KEYS = [k for k, _ in FREE]
 # free keys with upper-case letters ("other keys are kept verbatim": `pKa` must not come back as `pka`), mixed with one
